@@ -49,6 +49,7 @@ CONFIGS = {
     "c_path": dict(custom=True, sizes=[3], motifs=[([0], "path3", False)]),
     "c_bare_tri": dict(custom=True, sizes=[2, 3], motifs=[([0], "edge", True), ([1], "tri", False)]),
     "c_hub": dict(custom=True, sizes=[1, 2], motifs=[([0, 1], "hub2", False)]),
+    "c_hub_tri": dict(custom=True, sizes=[1, 2, 3], motifs=[([0, 1], "hub2", False), ([2], "tri", False)]),
     # --- larger configurations for seeded runs
     "f_mix4": dict(custom=False, sizes=[2, 3, 4, 4], motifs=[([0], "edge", False), ([1], "tri", False),
                                                                 ([2], "diamond", False), ([3], "cyc4", False)]),
@@ -59,12 +60,12 @@ CONFIGS = {
     "c_two_two_edge": dict(custom=True, sizes=[3, 2, 1], motifs=[([0], "path3", False), ([1, 2], "hub2x", False)]),
 }
 SHAPES["hub2x"] = (3, [(2, 0), (2, 1)])  # orbits (2 leaves | 1 hub): exactly two edges, two orbits
-MC_MIRROR = ["f_edge", "f_tri", "f_edge_tri", "f_single_path", "c_bare", "c_path", "c_bare_tri", "c_hub"]
+MC_MIRROR = ["f_edge", "f_tri", "f_edge_tri", "f_single_path", "c_bare", "c_path", "c_bare_tri", "c_hub", "c_hub_tri"]
 
 
 def consistent_family(cfgname, N, maxdeg, stubcap):
     """the MC family: jds in [N x K -> 0..maxdeg] with Consistent /\\ OrbitsAgree (see StubMatching.tla)"""
-    cfg = CONFIGS[cfgname]
+    cfg = get_cfg(cfgname)
     K = len(cfg["sizes"])
     out = []
     for flat in itertools.product(range(maxdeg + 1), repeat=N * K):
@@ -84,7 +85,7 @@ def consistent_family(cfgname, N, maxdeg, stubcap):
 
 def random_jds(rng, cfgname, N, maxdeg, zero_frac=0.3):
     """handshake-consistent random sequence: draw, then fix column sums by adding stubs"""
-    cfg = CONFIGS[cfgname]
+    cfg = get_cfg(cfgname)
     K = len(cfg["sizes"])
     jds = [[0 if rng.random() < zero_frac else rng.randrange(maxdeg + 1) for _ in range(K)] for _ in range(N)]
     for orbits, _s, _b in cfg["motifs"]:
@@ -104,11 +105,45 @@ def _norm_edges(ret):
     return [[int(e[0]), int(e[1])] for e in ret]
 
 
+def get_cfg(c):
+    return CONFIGS[c] if isinstance(c, str) else c
+
+
+def get_shape(shape):
+    """a shape is a name in SHAPES or an inline list of position pairs"""
+    if isinstance(shape, str):
+        return SHAPES[shape]
+    pairs = [tuple(p) for p in shape]
+    return (1 + max([max(p) for p in pairs] or [0]), pairs)
+
+
+def random_config(rng, custom):
+    """a random motif configuration: 1..4 motifs, custom ones with 1..3 orbits of sizes 1..3, random shapes"""
+    sizes, motifs = [], []
+    for _ in range(rng.randrange(1, 5)):
+        norb = rng.randrange(1, 4) if custom else 1
+        orbits = []
+        for _o in range(norb):
+            orbits.append(len(sizes))
+            sizes.append(rng.randrange(1, 4) if (custom and norb > 1) else rng.randrange(2, 5))
+        nv = sum(sizes[k] for k in orbits)
+        allp = [(a, b) for a in range(nv) for b in range(a + 1, nv)]
+        ne = rng.choice([1, 2, 2, 3, len(allp)]) if allp else 0
+        pairs = rng.sample(allp, min(ne, len(allp)))
+        bare = bool(custom and len(pairs) == 1 and rng.random() < 0.7)
+        motifs.append((orbits, [list(p) for p in pairs], bare))
+    if custom:
+        order = list(range(len(motifs)))      # motif order need not follow column order
+        rng.shuffle(order)
+        motifs = [motifs[i] for i in order]
+    return dict(custom=custom, sizes=sizes, motifs=motifs)
+
+
 def execute(case):
     """case: gen in fast|network|motifs, via in direct|main, cfg name, jds, rng: ('seed', s) | ('plan', [...])"""
     import gcmpy
     from gcmpy import GCMAlgorithmNames as GN
-    cfg = CONFIGS[case["cfg"]]
+    cfg = get_cfg(case["cfg"])
     if case.get("as_custom"):
         cfg = dict(cfg, custom=True)
     gen, via = case["gen"], case["via"]
@@ -118,8 +153,8 @@ def execute(case):
     calls = []
     builds, names, motifs_rec = [], [], []
     for j, (orbits, shape, bare) in enumerate(cfg["motifs"]):
-        size, pairs = SHAPES[shape]
-        lib = lib_callback(shape) if not cfg["custom"] or not bare else None
+        size, pairs = get_shape(shape)
+        lib = lib_callback(shape) if isinstance(shape, str) and (not cfg["custom"] or not bare) else None
 
         def build(vs, j=j, pairs=pairs, bare=bare, lib=lib):
             vs = list(vs)
@@ -143,7 +178,7 @@ def execute(case):
             motifs_rec.append({"orbits": [k + 1 for k in orbits], "names": per_edge or ["-"], "homog": False,
                                "check_shape": lib is not None, "shape": [[a + 1, b + 1] for a, b in pairs]})
         else:
-            nm = "top%d-%s" % (j, shape)
+            nm = "top%d-%s" % (j, shape if isinstance(shape, str) else "inline")
             names.append(nm)
             motifs_rec.append({"orbits": [k + 1 for k in orbits], "names": [nm], "homog": True,
                                "check_shape": lib is not None, "shape": [[a + 1, b + 1] for a, b in pairs]})
@@ -219,7 +254,7 @@ def _project(rec, res, N):
 
 def arrangement(rec):
     """reconstruct, per joint-degree column, the order in which the generator consumed its stubs"""
-    cfg = CONFIGS[rec["case"]["cfg"]]
+    cfg = get_cfg(rec["case"]["cfg"])
     K = len(cfg["sizes"])
     arr = [[] for _ in range(K)]
     for j, (orbits, _shape, _b) in enumerate(cfg["motifs"]):
